@@ -150,3 +150,41 @@ def part(ctx):
             v2['wrong-state'][0], v2['late-action'][0]))
     return {'fsmlib_states': res['distinct'], 'fsm_sessions': len(traces), 'fsm_events': sum(kinds.values()), 'fsm_verdicts': dict(cnt),
             'fsm_deviation_sensitivity': sens}
+
+
+def replay_case(ctx, case):
+    """re-build the table of a reported session, re-run its process() / reset() calls on the real class, judge again"""
+    from pexpect.FSM import FSM, ExceptionFSM
+    t0 = case['fsm_session']
+    calls = []
+
+    def mk(name):
+        def action(fsm):
+            calls.append({'act': name, 'sym': fsm.input_symbol, 'cur': str(fsm.current_state), 'next': str(fsm.next_state)})
+        return action
+    actions = {a: mk(a) for a in ACTS}
+    f = FSM(t0['initial'], memory=[])
+    for e in t0['exact']:
+        f.add_transition(e['sym'], e['st'], actions.get(e['act']), e['next'])
+    for e in t0['any']:
+        f.add_transition_any(e['st'], actions.get(e['act']), e['next'])
+    if t0['def']['act'] != 'absent':
+        f.set_default_transition(actions.get(t0['def']['act']), t0['def']['next'])
+    ev = []
+    for e0 in case['events']:
+        raised = ''
+        if e0['op'] == 'reset':
+            f.reset()
+        else:
+            try:
+                f.process(e0['sym'])
+            except ExceptionFSM:
+                raised = 'ExceptionFSM'
+            except Exception as e:
+                raised = type(e).__name__
+        ev.append({'op': e0['op'], 'sym': e0['sym'], 'cur': str(f.current_state), 'inp': str(f.input_symbol), 'raised': raised,
+                   'ncalls': len(calls), 'call': dict(calls[-1]) if calls else {'act': '', 'sym': '', 'cur': '', 'next': ''}})
+    tr = dict(t0, id='replay', ev=ev)
+    v, _ = tracecheck.validate([tr], 'FsmTrace', ctx.work, constants=TRACE_CONSTS, procs=1, tag='fsmreplay', pass_through=True)
+    print('replay verdict (FSM session): %s at event %d' % v['replay'])
+    return v['replay'][0]
